@@ -27,7 +27,7 @@ class RunEnd(BaseException):
 
 class Task:
     __slots__ = ("id", "role", "name", "proc", "lock", "done", "pred", "waiting", "ident", "error",
-                 "prio", "started", "on_done", "kind", "deferred")
+                 "prio", "started", "on_done", "kind", "deferred", "timed")
 
     def __init__(self, tid, role, name, proc, kind):
         self.id = tid
@@ -46,6 +46,7 @@ class Task:
         self.started = False
         self.on_done = None
         self.deferred = False
+        self.timed = False
 
     def __repr__(self):
         return f"<Task {self.id} {self.name}>"
@@ -210,6 +211,8 @@ class Kernel:
         self._code_cache = {}
         self._next_proc = 1
         self.ended = False
+        self._idle_set = set()           # tasks whose timeout fired since the last step of any other task
+        self._idle_fires = 0
         self.task_errors = []            # (task name, repr(exc), traceback text)
         self._name_counts = {}
 
@@ -289,18 +292,26 @@ class Kernel:
     def _runnable(self, me):
         opts = []
         deferred = []
+        timed = []
         if me is not None and not me.done and (me.pred is None or me.pred()):
             (deferred if me.deferred else opts).append(me)
+        elif me is not None and not me.done and me.timed:
+            timed.append(me)
         for t in self.tasks:
             if t is me or t.done:
                 continue
             if t.pred is None or t.pred():
                 (deferred if t.deferred else opts).append(t)
+            elif t.timed:
+                # a timed wait whose condition does not hold: its timeout fires only when nothing
+                # else can run, not even a deferred ("as slow as possible") task - a fair model of
+                # "a timeout is long compared with everything else"
+                timed.append(t)
         for e in self.internal:
             if e.enabled():
                 opts.append(e)
         # a deferred task ("as late as possible") runs only when nothing else can
-        return opts if opts else deferred
+        return opts if opts else (deferred if deferred else timed)
 
     def _pick(self, me, label="", anchored=False):
         while True:
@@ -319,7 +330,12 @@ class Kernel:
                 c = opts[idx]
                 if me_first and idx != 0:
                     self.preemptions += 1
+            if not isinstance(c, InternalEvent) and c not in self._idle_set and self._idle_fires:
+                self._idle_set.clear()
+                self._idle_fires = 0
             if isinstance(c, InternalEvent):
+                self._idle_set.clear()
+                self._idle_fires = 0
                 self.step += 1
                 self._log.update(f"{self.step}|ev|{c.name}\n".encode())
                 self._sig.update(f"ev|{c.name}\n".encode())
@@ -377,6 +393,33 @@ class Kernel:
         self._handoff(me, nxt)
         me.pred = None
         me.waiting = None
+
+    def timed_block(self, pred, waiting):
+        """Park the caller in a wait with a timeout.  Returns True if pred() holds when it continues,
+        False if the timeout fired (which happens only when nothing else could run)."""
+        me = self.current
+        me.pred = pred
+        me.waiting = waiting
+        me.timed = True
+        self.step += 1
+        self._record(me, f"timed-block:{waiting[0]}.{waiting[1]}", True)
+        nxt = self._pick(me)
+        if nxt is None:
+            self._stall()
+        self._handoff(me, nxt)
+        me.timed = False
+        me.pred = None
+        me.waiting = None
+        ok = pred()
+        if not ok:
+            self.probe("timeout-fired")
+            # only tasks that poll with timeouts are still moving: after many fruitless rounds this is a
+            # hang of a polling implementation, reported like a stall
+            self._idle_set.add(me)
+            self._idle_fires += 1
+            if self._idle_fires > 400:
+                self._stall(polling=True)
+        return ok
 
     # ------------------------------------------------------------------ tasks
     def spawn(self, fn, role, proc=None, kind="thread"):
@@ -456,7 +499,7 @@ class Kernel:
             f = f.f_back
         return best
 
-    def _stall(self):
+    def _stall(self, polling=False):
         info = []
         for t in self.tasks:
             if t.done:
@@ -465,7 +508,7 @@ class Kernel:
             info.append({"task": t.name, "role": t.role, "waiting": list(t.waiting) if t.waiting else None,
                          "func": w[0] if w else None, "line": w[1] if w else None,
                          "file": w[2] if w else None, "lineno": w[3] if w else None})
-        self._end("stall", {"blocked": info})
+        self._end("stall", {"blocked": info, "polling": polling})
 
     def _end(self, kind, info):
         sys.settrace(None)
@@ -502,10 +545,12 @@ def patch_threading(kernel):
         if t is kernel.current:
             raise RuntimeError("cannot join current thread")
         kernel.switch(f"{t.role}.join", sync=True)
-        if timeout is None:
-            while not t.done:
+        while not t.done:
+            if timeout is not None:
+                if not kernel.timed_block(lambda: t.done, (t.role, "join")):
+                    break
+            else:
                 kernel.block(lambda: t.done, (t.role, "join"))
-        # with a timeout: one yield, then return whatever the state is
 
     threading.Thread.start = start
     threading.Thread.join = join
